@@ -385,6 +385,10 @@ func runC09(c *Ctx) {
 	c.rule("R5", "every ReservedExchanger obtained by a caller is consumed exactly once (ExchangeReserved or WithdrawReserved) or returned, on every path", 3)
 	runC09R5(c, fns)
 
+	// ---------------------------------------------------------------- R7
+	c.rule("R7", "non-pipelined limit 1: an idle connection is handed out once and re-enters the idle set only after its reply was read or unused", 4)
+	checkIdleExclusive(c, fns, lf)
+
 	// ---------------------------------------------------------------- R6
 	c.rule("R6", "a new connection is dialled exactly when no existing one admitted the query; dialing-phase limit <= connection limit", 4)
 	if g := c.fn(relTransport, "PipelineTransport", "getReservedExchanger"); g != nil {
